@@ -345,6 +345,17 @@ func H_C01_text() {
 		vassume(!looksLikeID) // WriteSymbolFromString documents "$n" as a symbol ID reference, not text
 		chk(w.WriteSymbolFromString(s))
 		want = []vExp{{typ: SymbolType, sym: s}}
+	case 17:
+		// '$' followed by two arbitrary characters out of signs, digits and a letter: only '$' + digits is an ID reference
+		b := vnondetBytes(2)
+		for _, c := range b {
+			vassume(c == '+' || c == '-' || c == '0' || c == '7' || c == '9' || c == 'a' || c == '_')
+		}
+		s := "$" + string(b)
+		_, looksLikeID := symbolIdentifierRef(s)
+		vassume(!looksLikeID)
+		chk(w.WriteSymbolFromString(s))
+		want = []vExp{{typ: SymbolType, sym: s}}
 	case 15:
 		// a text Writer with a shared-table import writes its symbol table ahead of the first value
 		a := utf8Text()
